@@ -24,6 +24,7 @@ import os
 from harness import core, tlaval
 from harness.mem2_common import batch_verdicts, tlc_many, counterexample_states, cfg_text, action_counts
 from harness import mem2_text as mt
+from harness.mem2_child import run_child
 
 LEVEL = "model_checking"
 
@@ -32,6 +33,7 @@ INV_ALWAYS = ["PrefixWritten", "TerminatorWritten1", "TailUnchanged", "NewLength
               "EncodeDecode", "DecodeEncode"]
 
 CLAUSE = {
+    "new.raised": "ffi.new with a fitting string initializer, or ffi.string of its result, raised",
     "new.length": "ffi.new('T[]', s) did not allocate len(units(s)) + 1 units",
     "new.units": "ffi.new did not store the units of the initializer string",
     "new.terminator:char": "ffi.new with a shorter string left no zero unit after it",
@@ -56,6 +58,10 @@ CLAUSE = {
 def mc_cfg(variant, widths, maxl, maxs, cpset, invs):
     return cfg_text("Spec", {"Widths": set(widths), "MaxL": maxl, "MaxS": maxs, "CPs": set(cpset),
                              "Variant": variant}, invs)
+
+
+def graph_bound(ctx):
+    return dict(widths=[1, 2, 4], maxl=3 if ctx.quick else 4, maxs=2, cpset=[65, 55296, 56320, 65536])
 
 
 # ------------------------------------------------------------------ design level
@@ -85,11 +91,15 @@ def design_level(ctx):
     for v in ("nocount16", "alwaysterm", "lastpair"):
         jobs.append(("sanity:" + v, dict(module="Text", workers=2, cfg_text=mc_cfg(
             v, invs=INV_ALWAYS, widths=[1, 2, 4], maxl=3, maxs=2, cpset=[65, 55296, 56320, 65536]))))
+    gb = graph_bound(ctx)
+    for v in ("faithful", "fixed"):
+        jobs.append(("dump(Text,%s,L<=%d,S<=2)" % (v, gb["maxl"]), dict(
+            module="Text", workers=2, cfg_text=mc_cfg(v, invs=[], **gb), dump=os.path.join(ctx.tmp, "text_graph_" + v))))
     res = tlc_many(jobs, par=4)
     for name, _ in jobs:
         r = res[name]
         design = name.startswith("MC_Text")
-        ctx.add_tlc(name, r, require_ok=design, count_states=design)
+        ctx.add_tlc(name, r, require_ok=design or name.startswith("dump"), count_states=design)
     acts = action_counts(res[mains[0][0]].out)
     if len(acts) < 4 or any(n == 0 for _a, n in acts):
         raise core.MachineryError("an action of Text.tla was never taken (vacuous model run): %r" % acts)
@@ -119,24 +129,37 @@ def types_of(lab, W):
     return [T for T in mt.TYPES if lab.W(T) == W]
 
 
+ABOUT = [None]        # set by produce(): called with a description before every execution
+
+
+def about(*a):
+    if ABOUT[0]:
+        ABOUT[0](repr(a))
+
+
 def rec_assign(lab, T, old, s, how):
+    about("assign", T, old, s, how)
     new, exc = lab.assign(T, old, s, how)
     return {"k": "assign", "W": lab.W(T), "old": list(old), "s": list(s), "new": new, "exc": exc,
             "T": T, "how": how}
 
 
 def rec_new(lab, T, decl, s, how):
-    mem, st = lab.new(T, decl, s, how)
-    return {"k": "new", "W": lab.W(T), "decl": decl, "s": list(s), "mem": mem, "str": st, "T": T, "how": how}
+    about("new", T, decl, s, how)
+    mem, st, exc = lab.new(T, decl, s, how)
+    return {"k": "new", "W": lab.W(T), "decl": decl, "s": list(s), "mem": mem, "str": st, "exc": exc,
+            "T": T, "how": how}
 
 
 def rec_string(lab, T, mem, isarr, maxlen):
+    about("string", T, mem, isarr, maxlen)
     res, exc = lab.string(T, mem, isarr, maxlen)
     return {"k": "string", "W": lab.W(T), "mem": list(mem), "isarr": isarr, "maxlen": maxlen,
             "res": res or [], "exc": exc, "T": T, "how": "array" if isarr else "pointer"}
 
 
 def rec_unpack(lab, T, mem, isarr, n):
+    about("unpack", T, mem, isarr, n)
     res, exc = lab.unpack(T, mem, isarr, n)
     return {"k": "unpack", "W": lab.W(T), "mem": list(mem), "n": n, "res": res or [], "exc": exc,
             "T": T, "how": "array" if isarr else "pointer"}
@@ -161,13 +184,7 @@ def detect_variant(lab):
 
 # ------------------------------------------------------------------ spec -> code
 def replay_graph(ctx, lab, variant, recs):
-    b = dict(widths=[1, 2, 4], maxl=3, maxs=2, cpset=[65, 55296, 56320, 65536])
-    if not ctx.quick:
-        b = dict(widths=[1, 2, 4], maxl=4, maxs=2, cpset=[65, 55296, 56320, 65536])
-    dump = os.path.join(ctx.tmp, "text_graph")
-    r = core.tlc("Text", cfg_text=mc_cfg(variant, invs=[], **b), dump=dump, workers=4)
-    ctx.add_tlc("dump(Text,%s,L<=%d,S<=2)" % (variant, b["maxl"]), r, count_states=False)
-    g = tlaval.load_dot(dump + ".dot")
+    g = tlaval.load_dot(os.path.join(ctx.tmp, "text_graph_%s.dot" % variant))
     rng = ctx.rng
     div = []
     nedges = 0
@@ -338,18 +355,34 @@ def judge(ctx, recs, report=True):
             if report:
                 ctx.violation("%s:%s:%s" % (clause, rec["T"], rec["how"]), CLAUSE.get(clause, clause), rec)
     ctx.validated(len(recs))
+    if report and ctx.violations:
+        classes = {}
+        for key, _w, _p in ctx.violations:
+            c = ":".join(key.split(":")[:-1])
+            classes[c] = classes.get(c, 0) + 1
+        print("VIOLATION-CLASSES C15: %s" % ", ".join("%s x%d" % kv for kv in sorted(classes.items())))
     return nbad, diverge, totals
+
+
+def produce(cc, args):
+    """executed in a sub-process (harness.mem2_child): everything that touches the real cffi"""
+    ABOUT[0] = cc.about
+    lab = mt.TextLab()
+    variant = detect_variant(lab)
+    recs = []
+    div = replay_graph(cc, lab, variant, recs)
+    ngraph = len(recs)
+    driver(cc, lab, recs, 2500 if cc.quick else 60000)
+    return {"recs": recs, "div": div, "variant": variant, "ngraph": ngraph}
 
 
 def run(ctx):
     design_level(ctx)
-    lab = mt.TextLab()
-    variant = detect_variant(lab)
+    out = run_child(ctx, "c15", {})
+    if out is None:
+        return
+    recs, div, variant, ngraph = out["recs"], out["div"], out["variant"], out["ngraph"]
     ctx.cov["implementation_matches_model_variant"] = variant
-    recs = []
-    div = replay_graph(ctx, lab, variant, recs)
-    ngraph = len(recs)
-    driver(ctx, lab, recs, 2500 if ctx.quick else 60000)
     nbad, diverge, totals = judge(ctx, recs)
     for i in sorted(diverge)[:10]:
         div.append("record %d (%s) is predicted by neither model variant: %r" % (i, diverge[i], recs[i]))
